@@ -23,7 +23,7 @@ M_z     == MacroDef("@z", <<"p1">>, L(<<DMap1("$or", L(<<DMap1("xor", L(<<S("p1"
 M_two   == MacroDef("@two", <<"p1", "p2">>, L(<<DMap1("mov", L(<<S("p1"), S("p2")>>))>>))
 M_outer == MacroDef("@outer", <<>>, L(<<DMap1("$and", L(<<S("@inner"), S("ret")>>))>>))
 M_inner == MacroDef("@inner", <<>>, L(<<S("leave")>>))
-AllMacros == <<M_one, M_grp, M_str, M_reg, M_z, M_two, M_outer, M_inner>>
+AllMacros == <<M_one, M_grp, M_str, M_outer, M_inner, M_reg, M_z, M_two>>
 
 Call(name, args) == DMap(<<DPair(name, DNull)>> \o args)
 Uses == { S("@one"), S("@grp"), S("@str"), S("@strq"), DMap1("@str", DMap1("times", DInt(2))),
@@ -39,7 +39,10 @@ Patterns == { L(s) : s \in UNION { [1..n -> Uses] : n \in 1..MaxUses } }
 Splits == { << <<>>, AllMacros >>,                                         \* everything in the rule file
             << <<AllMacros>>, <<>> >>,                                      \* one extra macro file
             << <<SubSeq(AllMacros, 1, 4)>>, SubSeq(AllMacros, 5, 8) >>,     \* half and half
-            << <<SubSeq(AllMacros, 1, 2), SubSeq(AllMacros, 3, 6)>>, SubSeq(AllMacros, 7, 8) >> }  \* two extra files
+            \* two extra files; @outer is in the first, the @inner its body uses in the second
+            << <<SubSeq(AllMacros, 1, 4), SubSeq(AllMacros, 5, 6)>>, SubSeq(AllMacros, 7, 8) >>,
+            \* @outer in an extra file, @inner in the rule file
+            << <<SubSeq(AllMacros, 1, 4)>>, SubSeq(AllMacros, 5, 8) >> }
 RECURSIVE FlatSeq(_)
 FlatSeq(ss) == IF ss = <<>> THEN <<>> ELSE Head(ss) \o FlatSeq(Tail(ss))
 Combined(sp) == FlatSeq(sp[1]) \o sp[2]
